@@ -2,10 +2,17 @@ import ParryModel.C07.Theorems1
 import ParryModel.C07.Theorems2
 import ParryModel.C07.Theorems3
 import ParryModel.C07.Theorems4
+import ParryModel.C07.Theorems5
+import ParryModel.C07.Theorems6
+import ParryModel.C07.Theorems7
+import ParryModel.C07.Theorems8
 /-!
 # C07 property theorems (aggregator)
 `Theorems1`: traversals over the abstract tree (depth-first complete / sound, work-list version, best-first optimal,
 two-tree recursion) and the Minkowski-sum distance bound.  `Theorems2`: the closed lane tests of `SimdAabb` never prune a
 touching part; lower bounds of the point / ray lane weights; nestedness ⇒ the lower-bound hypothesis of `bestFirst_optimal`.
 `Theorems3`: `NonlinearRigidMotion` — the bounding balls of the nonlinear composite cast follow the shapes.
+`Theorems4`: unfolding of a QBVH model state.  `Theorems5`: composite distance visitor and linear shape-cast visitor (per-node bounds
+are lower bounds of every part below the node).  `Theorems6`: 2-D heightfield cell quantisation.  `Theorems7`: 2-D heightfield
+shape-cast cell walk.  `Theorems8`: 3-D heightfield cell quantisation.
 -/
